@@ -1026,6 +1026,39 @@ fn make_src(data: &Arc<Vec<u8>>, cfg: &Cfg, member_starts: &Arc<Vec<u64>>) -> br
     }
 }
 
+/// The independent walk of the longest prefix of complete, valid members. `vcore::bgzf::walk_prefix` refuses a file with a
+/// MALFORMED member (a flipped bit); positions in front of that member still denote bytes, so the members before it are
+/// walked (member boundaries from the BSIZE chain, binary search for the last boundary up to which the strict walker
+/// agrees) and the offset of the malformed member becomes the end of the walk.
+fn walk_valid_prefix(bytes: &[u8]) -> Option<(obgzf::Walk, usize)> {
+    if let Ok(w) = obgzf::walk_prefix(bytes) {
+        return Some(w);
+    }
+    let mut bounds = vec![0usize];
+    let mut p = 0usize;
+    while p + 18 <= bytes.len() {
+        let size = u16::from_le_bytes([bytes[p + 16], bytes[p + 17]]) as usize + 1;
+        if bytes[p] != 0x1f || bytes[p + 1] != 0x8b || size < 26 || p + size > bytes.len() {
+            break;
+        }
+        p += size;
+        bounds.push(p);
+    }
+    // largest k with bytes[..bounds[k]] walking cleanly (a prefix of valid members walks cleanly: monotone)
+    let (mut lo, mut hi) = (0usize, bounds.len() - 1);
+    while lo < hi {
+        let mid = (lo + hi + 1) / 2;
+        match obgzf::walk_prefix(&bytes[..bounds[mid]]) {
+            Ok((_, end)) if end == bounds[mid] => lo = mid,
+            _ => hi = mid - 1,
+        }
+    }
+    match obgzf::walk_prefix(&bytes[..bounds[lo]]) {
+        Ok((w, end)) if end == bounds[lo] => Some((w, end)),
+        _ => None,
+    }
+}
+
 fn member_starts_of(bytes: &[u8]) -> Arc<Vec<u64>> {
     let mut v: Vec<u64> = match obgzf::walk_prefix(bytes) {
         Ok((w, end)) => w.members.iter().map(|m| m.offset).chain([end as u64]).collect(),
@@ -1229,7 +1262,7 @@ fn run_rd(w: &World, o: &mut CaseOut, item: &Item, variant: Variant, reseal: usi
     }
     let frames = if rd::uses_bgzf(kind) { frames_of(&bytes) } else { Vec::new() };
     // virtual positions are compared by the byte they denote (independent walker), not by their raw value
-    let walked = if kind.is_bgzf_wrapped() { obgzf::walk_prefix(&bytes).ok() } else { None };
+    let walked = if kind.is_bgzf_wrapped() { walk_valid_prefix(&bytes) } else { None };
     let mut expected = expected;
     if let Some((walk, end)) = &walked {
         normalise_positions(&mut expected, walk, *end, bytes.len());
@@ -1524,7 +1557,7 @@ fn run_qy(o: &mut CaseOut, data: &Item, index: &Item, mode: qy::Mode, qseed: u64
     let at_block_end = if mode.supports_read() { block_end_counts(data, mode) } else { Vec::new() };
     let mut rng = Rng::new(qseed, 0x9E, fnv1a(index.name.as_bytes()));
     let queries = qy::gen_queries(&mut rng, mode, &refs, &spans, &at_block_end, if quick { 5 } else { 9 });
-    let walked = if mode.uses_bgzf() { obgzf::walk_prefix(&data.bytes).ok() } else { None };
+    let walked = if mode.uses_bgzf() { walk_valid_prefix(&data.bytes) } else { None };
     let norm = |mut t: Vec<String>| -> Vec<String> {
         if let Some((walk, end)) = &walked {
             normalise_positions(&mut t, walk, *end, data.bytes.len());
